@@ -96,17 +96,7 @@ func checkC07(p *Prog, r *Report) {
 		}
 		ok := false
 		if isFreshAllocBase(st.Addr) {
-			var modParam *ssa.Parameter
-			for _, pp := range sf.Params {
-				if n := namedOf(pp.Type()); n != nil && n.Obj().Name() == "Module" && n.Obj().Pkg().Path() == pkgRsyncd {
-					modParam = pp
-				}
-			}
-			nilEdge := func(v ssa.Value) bool {
-				b, ok := v.(*ssa.BinOp)
-				return ok && b.Op == token.EQL && modParam != nil && ((b.X == modParam && isNilConst(b.Y)) || (b.Y == modParam && isNilConst(b.X)))
-			}
-			ok = HasFact(st, true, nilEdge)
+			ok = HasFact(st, true, isModuleParamNil)
 		}
 		r.Cond(ok, "C07/FLAG-IMMUTABLE", funcKey(sf)+" store Module.Writable", p.Pos(st.Pos()), "Writable may only be set on a fresh implicit module when no module was given (command mode)")
 	}
